@@ -14,7 +14,7 @@ ASSUMPTIONS = [
     "closed obligations per program and option vector: the labelled output loads (every referenced label defined exactly once), every numeric target of the de-labelled output lies in [0, n], and the label-free canonical forms of both outputs are identical (label -> index of the next instruction)",
     "where the canonical forms differ the two outputs are additionally compared on the symbolic IC10 machine (z3, all inputs) to show the behavioural difference",
     "identifier quantifier: an adversarial pool of function / module names (prefixes of one another, components after '_' splitting, digits, names close to generated labels) instantiated in fixed templates; names that the compiler rejects are skipped",
-    "symbolic label strings through remove_labels (E3) are not built in this version: the identifier dimension is enumerated, not solver-quantified",
+    "E3: the real remove_labels + strip_code run on a 10-line labelled template whose two label names are strings of 1..3 (thorough 4) symbolic characters over {a, b, '.', '1'}; every feasible path is explored, the result is compared with the token-wise expected text, mismatches are replayed on the real function; name pairs where one is a component sequence of the other are the recorded finding",
 ]
 
 TEMPLATE = HDR + """
@@ -43,6 +43,7 @@ SAFE_POOL = ["f", "g", "alpha", "beta", "x1", "x10", "calc", "calcx", "Update", 
              "jx", "sx", "forx", "whilex", "x_y_z", "y_z_x"]
 COLLIDING = [("update", "update_display"), ("show", "do_show"), ("x_1", "x_1_0")]
 EDGE = [("_f", "g"), ("f_", "g")]
+TOKEN = [("Mode", "g"), ("f", "Setting")]  # function named like a logic type that the program also uses
 
 
 def components(name):
@@ -69,6 +70,8 @@ def name_programs(tier):
         out.append((f"names:{a},{b}", TEMPLATE.format(A=a, B=b), "component"))
     for a, b in EDGE:
         out.append((f"names:{a},{b}", TEMPLATE.format(A=a, B=b), "edge_underscore"))
+    for a, b in TOKEN:
+        out.append((f"names:{a},{b}", TEMPLATE.format(A=a, B=b), "token"))
     return out
 
 
@@ -140,6 +143,94 @@ def task(spec):
     return out
 
 
+# ---- E3: the real remove_labels on symbolic label names ---------------------------------------------
+
+E3_ALPHA = [ord("a"), ord("b"), ord("."), ord("1")]
+
+
+def _e3_template(l1, l2):
+    """labelled text with two label names (SymStr or str) and the expected de-labelled text"""
+    from .. import e3
+
+    S = e3.SymStr.of
+    lines = [S("jal ") + l1, S("jal ") + l2, S("j ") + l1, l1 + ":", S("  s db Setting 1"), S("  j ra"), l2 + ":", S("  s db Mode 2"), S("  beq r0 1 ") + l2, S("  j ra")]
+    text = S("\n").join(lines)
+    exp = ["jal 3", "jal 5", "j 3", "s db Setting 1", "j ra", "s db Mode 2", "beq r0 1 5", "j ra"]
+    return text, exp
+
+
+def e3_task(shape):
+    """shape = (len1, len2): label names of these lengths with symbolic characters"""
+    import z3
+
+    from .. import e2core as E, e3
+
+    n1, n2 = shape
+    out = dict(shape=shape, paths=0, problems=[], status="ok", queries=0)
+    mod = E.load_instrumented("generate_code")
+    rp = e3.ReProxy()
+    mod.__dict__["re"] = rp
+    remove_labels = mod.CompilerPassGatherCode.remove_labels
+    strip_code = mod.CompilerPassGatherCode.strip_code
+
+    def mk(prefix, n):
+        cs = []
+        for i in range(n):
+            v = z3.Int(f"{prefix}{i}")
+            E.ctx().assume(z3.Or(*[v == a for a in E3_ALPHA]))
+            cs.append(v)
+        # a label is a Python identifier with '_' -> '.': starts with a letter, does not end with '.'
+        E.ctx().assume(z3.Or(cs[0] == ord("a"), cs[0] == ord("b")))
+        E.ctx().assume(cs[-1] != ord("."))
+        return e3.SymStr(cs)
+
+    def fn():
+        l1, l2 = mk("p", n1), mk("q", n2)
+        if n1 == n2:
+            E.ctx().assume(z3.Or(*[a != b for a, b in zip(l1.c, l2.c)]))
+        text, exp = _e3_template(l1, l2)
+        res = remove_labels(None, text)
+        res = strip_code(None, res)
+        return l1, l2, res, exp
+
+    paths, c = E.explore(fn, max_paths=3000)
+    out["paths"] = len(paths)
+    out["queries"] = c.stats.queries
+    out["truncated"] = bool(c.work)
+    from stationeers_pytrapic.generate_code import CompilerPassGatherCode as RealG
+
+    for pc, outcome, asserts in paths:
+        if outcome[0] == "gap":
+            out["status"] = "inconclusive"
+            out["detail"] = outcome[1]
+            continue
+        s = z3.Solver()
+        s.add(*asserts)
+        if str(s.check()) != "sat":
+            continue
+        m = s.model()
+
+        def conc(x):
+            return "".join(chr(ch if isinstance(ch, int) else m.eval(ch, model_completion=True).as_long()) for ch in x.c)
+
+        if outcome[0] == "raise":
+            l1s = l2s = None
+            out["problems"].append(dict(kind="raises", detail=f"{type(outcome[1]).__name__}: {outcome[1]}"))
+            continue
+        l1, l2, res, exp = outcome[1]
+        got = conc(res) if isinstance(res, e3.SymStr) else str(res)
+        want = "\n".join(exp)
+        if got == want and (not isinstance(res, e3.SymStr) or res.concrete()):
+            continue
+        # mismatch on this path (or symbolic residue): replay the model on the real function
+        a, b = conc(l1), conc(l2)
+        text, exp2 = _e3_template(a, b)
+        real = RealG.strip_code(None, RealG.remove_labels(None, text.to_str()))
+        if real != "\n".join(exp2):
+            out["problems"].append(dict(kind="labels_not_resolved", labels=[a, b], got=real, want="\n".join(exp2)))
+    return out
+
+
 def run(tier: str) -> int:
     rep = harness.Report(PROP, tier, "exploration")
     rep.assumptions = ASSUMPTIONS
@@ -194,7 +285,33 @@ def run(tier: str) -> int:
                 continue
             path = e1.save_replay(PROP, dict(property=PROP, kind="labels", name=spec["name"], sources=spec["sources"], opts=spec["opts"], problem=pr))
             rep.violation(f"{spec['name']} {spec['opts']}: {pr['kind']}: {str(pr['detail'])[:200]}", path)
+    # ---- E3: identifier dimension, solver-quantified within the length bound
+    shapes = [(1, 1), (1, 2), (2, 1), (2, 2), (1, 3), (3, 1), (2, 3), (3, 2)] + ([(3, 3), (1, 4), (4, 1), (2, 4), (4, 2)] if tier == "thorough" else [])
+    e3res = harness.pmap(e3_task, shapes)
+    e3paths = 0
+    for r in e3res:
+        e3paths += r["paths"]
+        if r["status"] == "inconclusive":
+            rep.notes.append(f"note: E3 shape {r['shape']} inconclusive: {r.get('detail')}")
+        seen_pairs = set()
+        for pr in r["problems"]:
+            if pr["kind"] == "labels_not_resolved":
+                a, b = pr["labels"]
+                if collides(a.replace(".", "_"), b.replace(".", "_")):
+                    k = next((x for x in known if x.get("mechanism") == "component"), None)
+                    if k is not None:
+                        rep.known(f"{k['id']} {k['what']}")
+                        continue
+                if (a, b) in seen_pairs:
+                    continue
+                seen_pairs.add((a, b))
+            path = e1.save_replay(PROP, dict(property=PROP, kind="e3_labels", problem=pr))
+            rep.violation(f"remove_labels with label names {pr.get('labels')}: {pr['kind']}: got {pr.get('got', pr.get('detail'))!r}", path)
     rep.coverage = dict(
+        e3=dict(function="generate_code.CompilerPassGatherCode.remove_labels + strip_code (instrumented copy, re proxied for the \\b<label>\\b shape)",
+                template="10-line labelled program with two label names", alphabet=[chr(a) for a in E3_ALPHA], shapes=shapes, paths=e3paths,
+                queries=sum(r.get("queries", 0) for r in e3res), truncated=[r["shape"] for r in e3res if r.get("truncated")],
+                assumption="label names: first character a letter, last character not '.', the two names different"),
         evaluations=len(results),
         distinct_nontrivial=nontrivial,
         rule="programs (seeded generator, call-heavy generator, fixed call graphs, repository sources, name-pool template instances) x option vectors; each compiled with labels kept and removed; non-trivial = both outputs load and contain at least one jump target",
@@ -202,6 +319,6 @@ def run(tier: str) -> int:
         by_status=base.count_by(results),
         labels_checked=labels,
         jump_targets_checked=jumps,
-        name_pool=dict(safe=SAFE_POOL, colliding=COLLIDING, edge=EDGE),
+        name_pool=dict(safe=SAFE_POOL, colliding=COLLIDING, edge=EDGE, token=TOKEN),
     )
     return rep.finish()
